@@ -97,9 +97,14 @@ def capture_clean(part):
         return False, "body is not `exec N>&1` + one pipeline"
     first = items[0]["items"][0][1]["cmds"][0] if len(items[0]["items"]) == 1 else None
     if first is None or first["t"] != "simple" or [w.text() for w in first["words"]] != ["exec"] or \
-            len(first["redirs"]) != 1:
+            not first["redirs"]:
         return False, "first command is not `exec N>&1`"
-    fd, op, tgt = first["redirs"][0]
+    # exactly one output duplication N>&1; further redirections of the exec may only duplicate INPUT descriptors
+    # (`6<&0`: keep the original standard input), which cannot put anything into the captured stdout
+    outs = [(fd_, op_, t_) for (fd_, op_, t_) in first["redirs"] if op_ != "<&"]
+    if len(outs) != 1:
+        return False, "first command is not `exec N>&1` (plus input duplications)"
+    fd, op, tgt = outs[0]
     if op != ">&" or tgt.text() != "1" or fd is None:
         return False, "first command is not `exec N>&1`"
     N = fd
